@@ -23,6 +23,8 @@ pub struct Obs {
     pub aswidth: i64,
     pub idxok: bool,
     pub countok: bool,
+    /// the bytes do not depend on what the same codec encoded before
+    pub stateless: bool,
     pub note: String,
 }
 
@@ -42,6 +44,7 @@ impl Obs {
             aswidth: -2,
             idxok: true,
             countok: true,
+            stateless: true,
             ..Default::default()
         }
     }
@@ -61,7 +64,7 @@ impl Obs {
     pub fn to_json(&self) -> String {
         let clean = |s: &str| s.replace('\\', "/").replace('"', "'").replace('\n', " ");
         format!(
-            "{{\"outcome\":\"{}\",\"nrec\":{},\"lenok\":{},\"type\":{},\"peertype\":{},\"v\":{},\"l\":{},\"o\":{},\"addrok\":{},\"minpdus\":{},\"maxpdus\":{},\"leftover\":{},\"parse\":\"{}\",\"content\":\"{}\",\"subtype\":{},\"afi\":{},\"aswidth\":{},\"idxok\":{},\"countok\":{},\"note\":\"{}\"}}",
+            "{{\"outcome\":\"{}\",\"nrec\":{},\"lenok\":{},\"type\":{},\"peertype\":{},\"v\":{},\"l\":{},\"o\":{},\"addrok\":{},\"minpdus\":{},\"maxpdus\":{},\"leftover\":{},\"parse\":\"{}\",\"content\":\"{}\",\"subtype\":{},\"afi\":{},\"aswidth\":{},\"idxok\":{},\"countok\":{},\"stateless\":{},\"note\":\"{}\"}}",
             self.outcome,
             self.nrec,
             self.lenok,
@@ -81,6 +84,7 @@ impl Obs {
             self.aswidth,
             self.idxok,
             self.countok,
+            self.stateless,
             clean(&self.note)
         )
     }
